@@ -21,6 +21,8 @@ KF_KINDS = {
     "init-false": "schema-init-false-field",
     "union-pack": "union-speculative-packer",
     "nt-ovc": "schema-nt-override-in-containers",
+    "strategy-origin": "schema-strategy-origin-key",
+    "ovr-nullable": "schema-overridden-nullable",
 }
 
 _modn = [0]
@@ -274,6 +276,8 @@ class Sites:
                 key = f["alias"] if f["alias"] is not None else f["name"]
                 if not f["init"]:
                     self.out.append((path, "init-false"))
+                if (f.get("ser") or ("",))[0] == "fn":
+                    continue        # the member is the (constant, finding-free) output of the user's function
                 fv = getattr(v, f["name"])
                 if cfg.get("omit_none") and fv is None and field_nullable(f, e2):
                     continue        # the key is dropped (and, since /repo a5aab21, not required)
@@ -565,6 +569,14 @@ FIXED_CASES = [
      "@dataclass\nclass Ou(DataClassDictMixin):\n    u: Union[int, None, str]\n    v: Annotated[Union[bytes, None, List[int], bool], 'n']\n    k: Union[int, str]\n"
      "    class Config(BaseConfig):\n        omit_none = True\n", "Ou",
      ["Ou(None, None, 1)", "Ou('s', [1], 'k')", "Ou(2, None, 3)"]),
+    ("strategy by origin key",
+     "def _ser(v) -> str:\n    return ','.join(map(str, v))\n@dataclass\nclass St(DataClassDictMixin):\n    x: List[int]\n"
+     "    y: List[int] = field(default_factory=list, metadata={'serialize': _ser})\n"
+     "    class Config(BaseConfig):\n        serialization_strategy = {list: {'serialize': _ser}}\n", "St", ["St([1, 2])"]),
+    ("overridden serialization of a nullable field",
+     "def _sr(v) -> str:\n    return 's'\n@dataclass\nclass Ov(DataClassDictMixin):\n"
+     "    x: Optional[int] = field(metadata=field_options(serialize=_sr))\n    y: int = field(default=1, metadata=field_options(serialize=_sr))\n",
+     "Ov", ["Ov(1)", "Ov(None)"]),
     ("same name", "def mk(t):\n    @dataclass\n    class P(DataClassDictMixin):\n        v: t\n    return P\nP1 = mk(int)\nP2 = mk(str)\n"
                   "@dataclass\nclass HP(DataClassDictMixin):\n    a: P1\n    b: P2\n", "HP", ["HP(P1(1), P2('s'))"]),
 ]
@@ -765,8 +777,7 @@ def model_part(ctx: vlib.Ctx):
         probe = r.random() < 0.3
         tbl, root = G.gen_case(r, r.choice([1, 2, 2, 3, 3]), probe)
         if M.uses_generic(root, tbl):
-            ctx.hist("model_skipped", "generic-dataclass")
-            continue
+            ctx.hist("model_cases", "generic-dataclass")
         src = G.module_src(tbl, root)
         if len(src) > 12000:
             ctx.hist("model_skipped", "program-too-large")
@@ -784,9 +795,11 @@ def model_part(ctx: vlib.Ctx):
                 ctx.hist("model_skipped", "unsupported:" + type(e).__name__)
                 continue
             em = M.Emitter(tbl, m.__dict__)
-            clash = M.has_name_clash(tbl)
             try:
-                env_t, ty_t = em.env(), em.ty(root)
+                ty_t = em.ty(root)
+                env_t = em.env()
+                gen_names = [t[1] for t in em.specs.values()]
+                clash = M.has_name_clash(tbl) or len(set(gen_names)) < len(gen_names)   # G[int] and G[str] share the name G
                 combos = []
                 for (dl, ar), s in real.items():
                     pre = "#/$defs" if dl == "DRAFT_2020_12" else "#/components/schemas"
@@ -1054,10 +1067,13 @@ def run_fixed(ctx, descr, src, vals):
                 ctx.count(("fixed", descr, vsrc, dl, ar))
                 if errs:
                     e = errs[0]
-                    kind = {"flag": "flag", "int keys": "nonstr-key", "same name": "bare-name"}.get(descr)
+                    kind = {"flag": "flag", "int keys": "nonstr-key", "same name": "bare-name", "strategy by origin key": "strategy-origin",
+                            "overridden serialization of a nullable field": "ovr-nullable"}.get(descr)
                     ok_kf = (kind == "flag" and e.validator == "enum" and vsrc == "F.A | F.B") or \
                             (kind == "nonstr-key" and "propertyNames" in list(e.absolute_schema_path) and vsrc == "{1: 'a'}") or \
-                            (kind == "bare-name" and ar)
+                            (kind == "bare-name" and ar) or \
+                            (kind == "strategy-origin" and e.validator == "type" and list(e.absolute_path) == ["x"]) or \
+                            (kind == "ovr-nullable" and e.validator == "type" and list(e.absolute_path) == ["x"] and vsrc == "Ov(None)")
                     ctx.fail(f"{descr}: {vsrc} rejected: {e.message[:100]}",
                              {"entry": "fixed", "source": src, "dialect": dl, "all_refs": ar, "check": "validate", "value": vsrc,
                               "document": doc, "schema": s, "observed": e.message[:200], "expected": "no validation error"},
@@ -1083,11 +1099,13 @@ def coqchk_part(ctx: vlib.Ctx):
 
 
 def run(ctx: vlib.Ctx):
-    ctx.coverage["rule"] = ("random class tables + root types over the supported grammar (scalars, 19 stdlib leaves, 5 enum bases, Literal, "
-                            "List/Sequence/Deque/Set/FrozenSet/Tuple var+fixed+Unpack (nested), Dict/Mapping/OrderedDict/DefaultDict/Counter/"
-                            "ChainMap, Optional/Union/NewType, dataclasses with aliases/defaults/factories/generic/same __name__, NamedTuple, "
-                            "TypedDict total/Required/NotRequired), several conforming values each, validated under 2 dialects x all_refs; "
-                            "distinct = distinct (root type, table size); 30% of the cases probe the known-finding inputs")
+    ctx.coverage["rule"] = ("random class tables + root types over the supported grammar (scalars, 19 stdlib leaves, 5 enum bases, Literal lists "
+                            "with ==-equal members, List/Sequence/Deque/Set/FrozenSet/Tuple var+fixed+Unpack (nested), Dict/Mapping/OrderedDict/"
+                            "DefaultDict/Counter/ChainMap, Optional/Union/NewType/Final, dataclasses with three alias sources, defaults/factories, "
+                            "init=False, generic specialisations, same __name__, class options omit_none / namedtuple_as_dict (Config or dialect), "
+                            "field serialize overrides (as_list/as_dict, function with return annotation, pass_through), NamedTuple, TypedDict "
+                            "total/Required/NotRequired), several conforming values each, validated under 2 dialects x all_refs; distinct = distinct "
+                            "(root type, table size); 30% of the cases probe the known-finding inputs")
     ctx.assumptions += [
         "conforming value: exact scalar classes (bool is not offered at int positions), ints are offered at float positions, floats are finite "
         "(JSON cannot carry nan/inf)",
